@@ -146,7 +146,7 @@ def lower(workdir, gname, text, std, promote, extra):
     ll = os.path.join(workdir, gname + '.ll')
     open(cc, 'w').write(text)
     cmd = [CLANG, '-std=' + std, '-O0', '-fno-exceptions', '-ffp-contract=off', '-Xclang', '-disable-O0-optnone',
-           '-fno-discard-value-names', '-gline-tables-only', '-S', '-emit-llvm', '-Wno-c++11-narrowing', '-w',
+           '-fno-discard-value-names', '-gline-tables-only', '-fconstexpr-steps=500000000', '-S', '-emit-llvm', '-Wno-c++11-narrowing', '-w',
            '-I' + INC, *extra, cc, '-o', ll]
     rc, out, err, dt = run(cmd, timeout=600)
     if rc != 0:
@@ -520,7 +520,7 @@ def build_replay(workdir, ob, driver_cc, compiler):
     if ob.wrap and compiler.startswith('clang'):
         sanit += ',unsigned-integer-overflow'
     cxx = [compiler, '-std=' + ob.std, '-O0', '-g', '-fno-exceptions' if compiler.startswith('clang') else '-fexceptions',
-           '-ffp-contract=off', sanit, '-fno-sanitize-recover=all', '-w', '-Wno-narrowing', '-fpermissive' if compiler == 'g++' else '-Wno-c++11-narrowing',
+           '-ffp-contract=off', sanit, '-fno-sanitize-recover=all', '-w', '-fconstexpr-steps=500000000' if compiler.startswith('clang') else '-fconstexpr-ops-limit=5000000000', '-Wno-narrowing', '-fpermissive' if compiler == 'g++' else '-Wno-c++11-narrowing',
            '-I' + INC, *ob.extra_cxxflags, '-c', driver_cc, '-o', os.path.join(d, 'driver.o')]
     rc, out, err, dt = run(cxx, timeout=900, mem_kb=16 * 1024 * 1024)
     if rc != 0:
